@@ -189,6 +189,31 @@ def handle (_ : Unit) (toks : List Tok) : Unit × String :=
             let order := if dir.isSome then C13.Dir.readOrder (parsers.map (·.1)) ls else []
             pure (encList [encStr n, encList (order.map fun e => encStr e.name), encFF ff])
           | none => pure "error"
+    | [Tok.str "basedisp", tab, ls] => do
+        -- the base SectionLineParser (finalize_section does nothing) on an arbitrary dispatch table
+        let tab ← (← tab.list?).mapM strs?
+        let ls ← (← ls.list?).mapM lineOf
+        let P : MParams (List (Path × String)) :=
+          { T := tab, handle := fun p t c => some (c ++ [(p, t)]), fresh := [] }
+        match mapRun P ls with
+        | some s => pure ("ok " ++ encList ((s.out.flatMap (·.2) ++ s.cur.2).map fun (p, t) =>
+            encList [encList (p.map encStr), encStr t]))
+        | none => pure "error"
+    | [Tok.str "itpsplit", toks, idxs] => do
+        -- ITPDirector._split_atoms_and_parameters(tokens, atom_idxs)
+        let toks ← strs? toks
+        let idxs ← (← idxs.list?).mapM fun e => do
+          match ← e.list? with
+          | [Tok.int 0, Tok.int a] => pure (Idx.pos a.toNat)
+          | [Tok.int 1, Tok.int a, Tok.int b] => pure (Idx.slice a.toNat (some b.toNat))
+          | [Tok.int 2, Tok.int a] => pure (Idx.slice a.toNat none)
+          | _ => pure Idx.bad
+        match idxPositions toks.length idxs with
+        | some pos =>
+          let atoms := pos.filterMap fun i => toks[i]?
+          let params := (List.range toks.length).filterMap fun i => if pos.contains i then none else toks[i]?
+          pure ("ok " ++ encList (atoms.map encStr) ++ " " ++ encList (params.map encStr))
+        | none => pure "error"
     | [Tok.str "pyint", x] => do
         let x ← x.str?
         match pyInt? x with
